@@ -129,10 +129,15 @@ def run_once(case, ch):
             for e in ref_edges(kinds[j], vs):
                 if exp_pairs[frozenset(e)] == 1: exp_attr[frozenset(e)] = (f"t{j}", mid)
             mid += 1
+        id_of_instance = {}; instance_of_id = {}      # the property fixes no particular id values: edges of one instance share an id, distinct instances never do
         for e, (nm, m) in exp_attr.items():
             u, v = (tuple(e) * 2)[:2]; d = G.edges[u, v]
             if d.get(NetworkNames.TOPOLOGY) != nm: bad("C02", "network.topology", f"edge {(u, v)} named {d.get(NetworkNames.TOPOLOGY)!r}, expected {nm!r}")
-            if d.get(NetworkNames.MOTIF_IDS) != m: bad("C02", "network.motif_id", f"edge {(u, v)} motif id {d.get(NetworkNames.MOTIF_IDS)!r}, expected {m}")
+            got = d.get(NetworkNames.MOTIF_IDS)
+            try: hash(got)
+            except TypeError: bad("C02", "network.motif_id", f"edge {(u, v)} carries the unhashable motif id {got!r}"); continue
+            if got is None or id_of_instance.setdefault(m, got) != got: bad("C02", "network.motif_id", f"edge {(u, v)} of motif instance {m} carries id {got!r}, another edge of that instance carries {id_of_instance.get(m)!r}")
+            elif instance_of_id.setdefault(got, m) != m: bad("C02", "network.motif_id", f"motif instances {instance_of_id[got]} and {m} share the id {got!r}")
     else:
         el, tp, mi = list(out.edge_list), list(out.topologies), list(out.motif_id)
         if [tuple(r) for r in out.joint_degrees] != jds: bad("C01", "jds_carried", f"joint_degrees {out.joint_degrees} vs {jds}")
